@@ -80,6 +80,33 @@ type digester struct {
 	seen  map[uintptr]int
 	sing  map[uintptr]string
 	depth int
+	// ptype, if not nil, receives the type of every non-singleton object reached
+	// through a pointer (objects of size zero excepted: Go gives them all the
+	// same address).
+	ptype map[uintptr]string
+}
+
+// modulePointers returns the addresses (with their types) of all objects
+// reachable from m through pointers, the package-level singletons excepted.
+func modulePointers(m *ir.Module) map[uintptr]string {
+	d := &digester{seen: map[uintptr]int{}, sing: singletons(), ptype: map[uintptr]string{}}
+	d.walk(reflect.ValueOf(m))
+	return d.ptype
+}
+
+// sharedObjects lists (at most max) objects present in both pointer sets.
+func sharedObjects(a, b map[uintptr]string, max int) []string {
+	var out []string
+	for p, t := range a {
+		if _, ok := b[p]; ok {
+			out = append(out, t)
+		}
+	}
+	sort.Strings(out)
+	if len(out) > max {
+		out = append(out[:max], fmt.Sprintf("… %d more", len(out)-max))
+	}
+	return out
 }
 
 // moduleDigest returns the digest text of m (one line per node).
@@ -142,6 +169,9 @@ func (d *digester) walk(v reflect.Value) {
 		}
 		id := len(d.seen)
 		d.seen[p] = id
+		if d.ptype != nil && v.Type().Elem().Size() > 0 {
+			d.ptype[p] = v.Type().String()
+		}
 		d.line("#%d %s", id, v.Type())
 		d.depth++
 		d.walk(v.Elem())
